@@ -19,6 +19,7 @@ func Main(args []string) int {
 	verif := fs.String("verif", "/verif", "verification directory (evidence, known findings)")
 	dump := fs.String("dump", "", "debug: dump origins and edge facts of the function with this key")
 	list := fs.Bool("list", false, "debug: list function keys")
+	genRef := fs.Bool("gen-ref", false, "maintenance: print the reference signatures (refsigs.txt) of the tree")
 	dumpErr := fs.Bool("dump-errdiscipline", false, "debug: census of the error-discipline rule over every module function")
 	replay := fs.String("replay", "", "re-decide the obligation recorded in this replay file")
 	noEvidence := fs.Bool("no-evidence", false, "do not write evidence files (used by self-tests and seeded runs)")
@@ -26,11 +27,15 @@ func Main(args []string) int {
 	if err := fs.Parse(args); err != nil {
 		return 2
 	}
-	if *dump != "" || *list || *dumpErr {
+	if *dump != "" || *list || *dumpErr || *genRef {
 		p, err := Load(LoadOptions{Repo: *repo})
 		if err != nil {
 			fmt.Fprintln(os.Stderr, "load:", err)
 			return 2
+		}
+		if *genRef {
+			GenRef(p)
+			return 0
 		}
 		if *dumpErr {
 			DumpErrorDiscipline(p)
